@@ -335,7 +335,11 @@ impl EventListenerFuture for RawRead<'_> {
                     Ordering::AcqRel,
                     Ordering::Acquire,
                 ) {
-                    Ok(_) => return Poll::Ready(()),
+                    Ok(_) => {
+                        // Stop listening: a completed future must not absorb later notifications.
+                        *this.listener = None;
+                        return Poll::Ready(());
+                    }
                     Err(s) => *this.state = s,
                 }
             } else {
